@@ -1058,9 +1058,16 @@ class BlockwiseRequest(BaseUnicastRequest, interfaces.Request):
         try:
             async for block1_notification in lower_observation:
                 log.debug("Notification received")
-                full_notification = await cls._complete_by_requesting_block2(
-                    protocol, original_request, block1_notification, log
-                )
+                try:
+                    full_notification = await cls._complete_by_requesting_block2(
+                        protocol, original_request, block1_notification, log
+                    )
+                except error.ResourceChanged:
+                    # The resource moved on while this notification's body was
+                    # being fetched; a newer notification is bound to follow
+                    # (or is already waiting), so this one is simply skipped.
+                    log.debug("Resource changed during block-wise fetch of a notification")
+                    continue
                 log.debug("Reporting completed notification")
                 weak_observation().callback(full_notification)
             # FIXME verify that this loop actually ends iff the observation
